@@ -183,6 +183,16 @@ Theorem C12_udp_order : forall cfg dr sched i,
 Proof. exact udp_order_lemma. Qed.
 Print Assumptions C12_udp_order.
 
+(* ... and, with the per-address sequence numbering 0,1,2,.. of what the exporter sent, the
+   delivered numbers of an address are a subsequence of 0..n-1: none delivered twice, none that
+   was not sent, increasing *)
+Theorem C12_udp_at_most_once : forall cfg dr sched i,
+  let s := u_run dr sched (u_init cfg) in
+  Sub (proj i (u_log s)) (seq 0 (match nth_error cfg i with Some cc => List.length (uc_msgs cc) | None => 0 end)) /\
+  NoDup (proj i (u_log s)).
+Proof. exact udp_at_most_once_lemma. Qed.
+Print Assumptions C12_udp_at_most_once.
+
 (* (11) race freedom on the table of the COMMON translator T5 (Gen/Locks.v collector_accesses,
    vocabulary Model/LockTab.v): every class may run in several instances and in parallel with
    every other, except Start (called once) *)
